@@ -673,7 +673,7 @@ def run_sizes(ctx, dtypes=("float64",)):
                             red = acc.reshape(leaf.shape).double()
                             err = (gk.double() - red).abs()
                             sc = red.abs().amax(dim=-1, keepdim=True) + 1e-300
-                            if bool((err > 1024 * common.EPS[dtype] * max(1, nbl) * sc).any()):
+                            if not bool((err <= 1024 * common.EPS[dtype] * max(1, nbl) * sc).all()):
                                 ctx.fail(case, f"sizes: gradient #{k} of {name} on {g} with batch shapes {sx} x {sy} differs from the sum of the "
                                                f"item-wise gradients by {float(err.max()):.3e} ({dtype})")
                     except Exception as e:
@@ -766,7 +766,7 @@ def run_interleave(ctx, again=False):
                 if not close(gk[b], g1, 1024 * common.EPS[dtype]) and not same(gk[b], g1):
                     err = (gk[b].double() - g1.double()).abs()
                     sc = g1.double().abs().max() + 1e-300
-                    if float(err.max()) > 1024 * common.EPS[dtype] * float(sc):
+                    if not (float(err.max()) <= 1024 * common.EPS[dtype] * float(sc)):
                         ctx.fail({"stream": "interleave", "type": g, "read": name, "dtype": dtype, "batch": n, "item": b},
                                  f"interleave: gradient #{k} of {name} on {g} (batch {n}, {dtype}) differs from the single-item call on item {b}")
 
